@@ -215,6 +215,10 @@ func (x *runCtx) call(op string, n int, f func()) bool {
 			x.c.Count("ops_skipped_after_trip", 1)
 			return false
 		}
+		if suspendedSet[op] {
+			x.c.Count("ops_not_run(operation suspended behind a confirmed hang key)", 1)
+			return false
+		}
 	}
 	x.nOps++
 	before := lastAlloc
